@@ -1486,6 +1486,7 @@ import xspecs
 
 SPECS = {
     "O19.2": [xspecs.fifo_choose],
+    "O1.6": [xspecs.rotate_memtable_step],
     "O4.5": [xspecs.register_tables_step],
     "O4.1": [xspecs.version_roundtrip],
     "O15.3": [xspecs.drop_range_choose],
@@ -2418,3 +2419,41 @@ def recovery_scans_folder(fns):
 
 
 SPECS["O20.6"] = [recovery_scans_folder]
+
+
+# ---------------------------------------------------------------------------------------------
+# C20 O20.7: after a reopen every version file other than the current one is deleted
+# ---------------------------------------------------------------------------------------------
+
+def orphan_versions_removed(fns):
+    fn = mir.find(fns, r"src/tree/mod\.rs[^>]*>::cleanup_orphaned_version\(")
+    a = Automaton(fn, "O20.7 cleanup_orphaned_version removes every `v*` file whose name differs from the current version's")
+    nxt = one(calls(fn, r"<ReadDir as Iterator>::next$"), "read_dir iteration")
+    sw = one(calls(fn, r"core::str::<impl str>::starts_with::<char>$"), "name.starts_with('v')")
+    rm = one(calls(fn, r"(^|::)remove_file::<"), "remove_file")
+    cmpc = calls(fn, r"as PartialEq<[^>]*>>::(ne|eq)$")
+    ordc = [b for b in live_blocks(fn) if (b.kind == "call" and re.search(r"as PartialOrd(<[^>]*>)?>::(lt|le|gt|ge)$|::cmp$", b.callee)) or
+            any(re.match(r"^_\d+ = (Lt|Le|Gt|Ge)\(", st) for st in b.stmts)]
+    if len(cmpc) != 1:
+        if ordc:
+            a.glue = [("the file name is compared for (in)equality with the current version's name", "refuted", 0.0)]
+            a.var("x")
+            a.event("call:remove_file guarded by an ordering test", [rm.idx])
+            a.require("call:remove_file guarded by an ordering test", "false", "only version files ordered before / after the current one are removed: a leftover version file on the other side survives every reopen")
+            return [a]
+        raise MirError("cleanup_orphaned_version: comparison with the current version's name not found")
+    c = cmpc[0]
+    differs = true_edge(fn, c) if c.callee.endswith("::ne") else false_edge(fn, c)
+    vfile = true_edge(fn, sw)
+    a.var("vfile").var("differs").var("removed")
+    a.event("call:next entry", [nxt.idx]).on("call:next entry", "vfile", False).on("call:next entry", "differs", False).on("call:next entry", "removed", False)
+    a.event("edge:name starts with 'v'", [vfile]).on("edge:name starts with 'v'", "vfile", True)
+    a.event("edge:name != current version file", [differs]).on("edge:name != current version file", "differs", True)
+    a.event("call:remove_file", [rm.idx]).on("call:remove_file", "removed", True)
+    ok_ret, err_ret = ret_blocks(fn)
+    a.require("call:next entry", "(=> (and {vfile} {differs}) {removed})", "a version file other than the current one is left in the directory")
+    a.require("call:remove_file", "(and {vfile} {differs})", "a file that is not an orphaned version file (e.g. the current version) is removed")
+    return [a]
+
+
+SPECS["O20.7"] = [orphan_versions_removed]
